@@ -4,6 +4,7 @@
 package ref
 
 import (
+	"bytes"
 	"errors"
 	"fmt"
 	"io"
@@ -11,7 +12,34 @@ import (
 	"github.com/wrgl/wrgl/pkg/objects"
 )
 
+// ancestorOfAll reports whether "commit" is an ancestor of (or equal to) every one of "commits"
+func ancestorOfAll(db objects.Store, commit []byte, commits [][]byte) (bool, error) {
+	for _, other := range commits {
+		if bytes.Equal(commit, other) {
+			continue
+		}
+		ok, err := IsAncestorOf(db, commit, other)
+		if err != nil {
+			return false, err
+		}
+		if !ok {
+			return false, nil
+		}
+	}
+	return true, nil
+}
+
 func SeekCommonAncestor(db objects.Store, commits ...[]byte) (baseCommit []byte, err error) {
+	// a commit that all the others descend from is the base (fast-forward case)
+	for _, sum := range commits {
+		ok, err := ancestorOfAll(db, sum, commits)
+		if err != nil {
+			return nil, err
+		}
+		if ok {
+			return sum, nil
+		}
+	}
 	n := len(commits)
 	qs := make([]*CommitsQueue, n)
 	bases := make([][]byte, n)
